@@ -8,7 +8,7 @@
    [load] = the loader's classification at restart; [serves_all] = every document is served, from
    intact .docs/.meta or through a complete index over the document file it was built for. *)
 From Coq Require Import Lia.
-From C08 Require Import Model ModelGen CaseDefs ProofsA ProofsB ProofsC ProofsD ProofsFS ProofsGen ProofsH.
+From C08 Require Import Model ModelGen CaseDefs ProofsA ProofsB ProofsC ProofsD ProofsFS ProofsFS2 ProofsGen ProofsH.
 
 (* Crash at any point of a seal (fault-free or with any write fault), the interrupted write torn
    at any length, then any power loss: the restarted store serves every document, and the directory
@@ -212,6 +212,13 @@ Theorem C08_faultset_not_published :
         -> ~ In (ORename SdocsTmp Sdocs) (fst (seal_fs p fl))).
 Proof. exact faultset_not_published. Qed.
 Print Assumptions C08_faultset_not_published.
+
+(* The fault model of the theorems above (one transient failure, or none) is exactly the singleton
+   (empty) instance of the fault sets: same operations, same result. *)
+Theorem C08_single_fault_is_faultset :
+  (forall p x, seal p (Some x) = seal_fs p (fs_single x)) /\ (forall p, seal p None = seal_fs p fs_none).
+Proof. exact single_fault_is_faultset. Qed.
+Print Assumptions C08_single_fault_is_faultset.
 
 (* Under any fault set: an error never publishes or removes anything; what reached the disk is a
    (torn) prefix of the fault-free sequence, the whole sequence iff no error; an original is removed
